@@ -93,6 +93,13 @@ def scenarios():
     # a complete session: both sides open, talk, close
     S["open-talk-close"] = {"alice": [("open", "s", "bob", 0, False), ("recv", "s"), ("close", "s")],
                             "bob": [("open", "s", "alice", 0, False), ("send", "s", "b1"), ("close", "s")]}
+    # two complete sessions on the same names, one after the other: every close regular and in time
+    # (bob starts his second round only after alice has answered in the first one: her first socket is connected by then, so it
+    # is her SECOND socket that has no peer yet when bob's second socket arrives or has come and gone)
+    S["two-rounds-same-names"] = {"alice": [("open", "s", "bob", 0, False), ("recv", "s"), ("send", "s", "a1"), ("close", "s"),
+                                            ("open", "t", "bob", 0, False), ("recv", "t"), ("close", "t")],
+                                  "bob": [("open", "s", "alice", 0, False), ("send", "s", "b1"), ("recv", "s"), ("close", "s"),
+                                          ("open", "t", "alice", 0, False), ("send", "t", "b2"), ("close", "t")]}
     # a callback endpoint whose connection-lost callback uses its own socket
     S["callback-uses-socket-on-connection-loss"] = {"alice": [("open", "s", "bob", 0, False), ("send", "s", "a1"), ("close", "s")],
                                                     "bob": [("open", "s", "alice", 0, 2), ("pause", 4)]}
@@ -358,7 +365,12 @@ def judge(script, s: vs.Scheduler):
     closed = [(ev[1], ev[3]) for ev in log if ev[0] == "ret" and ev[2] == "close"]
     if opened and sorted(opened) == sorted(closed) and not any(op[0] in ("bopen", "use") for ops in script.values() for op in ops):
         left = getattr(s, "hub_end", ((), ()))
-        if left[0] or left[1]:
+        # (a key that an endpoint opens more than once: a socket of the second round may get connected to the peer's socket of the
+        # first round that is still open; the peer's second socket then comes and goes without a remote socket noticing it, and
+        # its rendezvous mark says exactly that - only the list of open sockets must be empty then)
+        keys = [(name, op[2], op[3]) for name, ops in script.items() for op in ops if op[0] in ("open", "open_t")]
+        once = len(set(keys)) == len(keys)
+        if left[0] or (left[1] and once):
             return (f"every socket was opened and closed again by its endpoint, yet the hub still lists open sockets {left[0]} and "
                     f"rendezvous marks {left[1]}")
     # rendezvous with a zero / small connect timeout: a peer that is already waiting must be found
